@@ -102,7 +102,7 @@ CLAIMED = {
             "(distinct available pairs, clipped batch size, per-sample counts, termination) and shows that ranking rows "
             "without available annotators (the code-shaped deviation) yields a non-terminating loop; the real "
             "strategies are run on TLC-generated scenarios covering the candidate x annotator modes (None, index "
-            "arrays, Boolean matrices, feature rows), TLC-drawn label-missing patterns, batch sizes and "
+            "arrays, Boolean matrices, feature rows incl. repeated rows), TLC-drawn label-missing patterns, batch sizes and "
             "n_annotators_per_sample, with A_perf None/per-annotator/per-pair, and each result is validated by TLC: "
             "shape (k,2), distinct available pairs, k = clipped batch size, utilities NaN at unavailable and earlier "
             "pairs, per-sample counts; a watchdog turns non-termination into an unmatched event.",
